@@ -229,7 +229,7 @@ PROPS = {
               "non-trivial when at least one pair of calls from different threads overlapped in time"
              " Later additions have their own keys in by_case_class (DESIGN.md 5.1): call sequences and object life cycles, multi-threaded cases (also run under ThreadSanitizer), sweeps over every value of a size parameter, placement / alignment / data-structure modes drawn from the case hash."),
         require={"all": ["concurrent_calls", "overlapping_call_pairs", "tsan_instrumented_calls", "ro_protected_bytes",
-                         "schedule:free", "schedule:pinned-2cpu", "schedule:yield", "concurrent_constructions", "first_use_cases", "concurrently_allocated_objects", "simple_vs_table_twin_checks", "shared_objects_dispatch:generic", "shared_objects_dispatch:native",
+                         "schedule:free", "schedule:pinned-2cpu", "schedule:yield", "concurrent_constructions", "first_use_cases", "concurrently_allocated_objects", "simple_vs_table_twin_checks", "adjacent_slot_updates", "shared_objects_dispatch:generic", "shared_objects_dispatch:native",
                          "entry_points_observed_concurrently", "overlap_pairs"]},
         assumptions=["gcc ThreadSanitizer happens-before detection (does not see accesses made inside the four .s kernels, "
                      "which only touch caller data)", "in the 'ro' build every allocation made while creating modules and "
